@@ -230,6 +230,24 @@ func dischargeAll(obls []*Obligation, timeoutS int, workers int) {
 		}
 		wg2.Wait()
 	}
+	// a last chance for the lone straggler: when at most three goals are still undecided (the pattern
+	// of a timeout on a busy machine, not of a change that broke a function), they get six times
+	// the limit, all solvers, one after the other
+	var last []*Obligation
+	for _, o := range obls {
+		if o.Answer != nil && o.Answer.Verdict == VUnknown {
+			last = append(last, o)
+		}
+	}
+	if len(last) > 0 && len(last) <= 3 {
+		for _, o := range last {
+			a := runQuery(o.query(), 6*timeoutS, true)
+			if a.Verdict != VUnknown {
+				a.Output = "(third attempt) " + a.Output
+				o.Answer = &a
+			}
+		}
+	}
 }
 
 // ---------------------------------------------------------------- exclusion lists
